@@ -1801,6 +1801,8 @@ class WindowFrameAnalyticFunction(AnalyticFunction):
         if self.frame or self.bound:
             raise AttributeError()
 
+        # a frame is part of the OVER clause: it has to be written even when no partition or ordering was given
+        self._include_over = True
         self.frame = frame
         self.bound = (bound, and_bound) if and_bound else bound
 
